@@ -600,7 +600,12 @@ top:
 			lexer.AppendToken(lexer.Token(TokenTildeAt, ""))
 		} else {
 			lexer.AppendToken(lexer.Token(TokenTilde, ""))
-			lexer.buffer.WriteRune(r)
+			// the rune after the tilde starts the unquoted expression: lex
+			// it normally. It used to be written into the atom buffer, so
+			// ~(+ a 1) failed with "Unrecognized atom '('" (and ~"s", ~[x]
+			// likewise) although ~@(...) and ~sym worked.
+			lexer.state = LexerNormal
+			return lexer.LexNextRune(r)
 		}
 		lexer.state = LexerNormal
 		return nil
